@@ -188,6 +188,7 @@ pub trait MassMatrixAdaptStrategy<M: Math>: Sized {
             old(mass_matrix).view().id < i64::MAX,
         ensures
             r is Ok,
+            *final(options) == *old(options),     // the estimator's `init` never touches the sampler options (unit adapt relies on it)
             // the initial point seeds both windows
             ({ let p = Sample { draw: point.pos_v(), grad: point.grad_v() };
                forall|fg: Seq<Sample>, bg: Seq<Sample>| #[trigger] old(self).repr(fg, bg) ==> final(self).repr(fg.push(p), bg.push(p)) }),
